@@ -683,6 +683,35 @@ fn err_ret<T>(e: &libcnb::Error<TErr>) -> ARet {
 
 type Log = Rc<RefCell<Vec<ACall>>>;
 
+/// Fault injection (C12) must only hit the library, not the harness's own callbacks: while a
+/// callback of the scripted buildpack runs, the LD_PRELOAD shim (if loaded and switched on by
+/// fault_child) is paused.
+pub static FAULT_WINDOW: std::sync::atomic::AtomicBool = std::sync::atomic::AtomicBool::new(false);
+pub fn shim_activate(on: bool) {
+    let c = std::ffi::CString::new("faultshim_activate").unwrap();
+    let p = unsafe { libc::dlsym(libc::RTLD_DEFAULT, c.as_ptr()) };
+    if !p.is_null() {
+        let f: extern "C" fn(i32) = unsafe { std::mem::transmute(p) };
+        f(i32::from(on));
+    }
+}
+struct Pause;
+impl Pause {
+    fn new() -> Self {
+        if FAULT_WINDOW.load(std::sync::atomic::Ordering::SeqCst) {
+            shim_activate(false);
+        }
+        Pause
+    }
+}
+impl Drop for Pause {
+    fn drop(&mut self) {
+        if FAULT_WINDOW.load(std::sync::atomic::Ordering::SeqCst) {
+            shim_activate(true);
+        }
+    }
+}
+
 fn call(cb: &str, md: AMd, env: &str, empty: bool) -> ACall {
     ACall { cb: cb.into(), md, env: env.into(), empty }
 }
@@ -694,6 +723,7 @@ fn run_cached<M: MdType>(u: &Universe, ctx: &BuildContext<TB>, name: &LayerName,
     let layers_dir = ctx.layers_dir.clone();
     let n = o.n.clone();
     let ima = |md: &GenericMetadata| -> Result<(InvalidMetadataAction<M>, String), TErr> {
+        let _p = Pause::new();
         log.borrow_mut().push(call("ima", md.project(u), "none", false));
         match o.ima.k.as_str() {
             "Delete" => Ok((InvalidMetadataAction::DeleteLayer, o.ima.c.clone())),
@@ -706,6 +736,7 @@ fn run_cached<M: MdType>(u: &Universe, ctx: &BuildContext<TB>, name: &LayerName,
         }
     };
     let rla = |md: &M, path: &Path| -> Result<(RestoredLayerAction, String), TErr> {
+        let _p = Pause::new();
         let mut c = call("rla", md.project(u), "none", false);
         if path != layers_dir.join(&n) {
             c.cb = format!("rla with wrong path {path:?}");
@@ -802,6 +833,7 @@ impl<M: MdType> Layer for ScriptLayer<'_, M> {
     }
 
     fn create(&mut self, ctx: &BuildContext<TB>, layer_path: &Path) -> Result<LayerResult<M>, TErr> {
+        let _p = Pause::new();
         let empty = fs::read_dir(layer_path).map(|mut d| d.next().is_none()).unwrap_or(false);
         let mut c = call("create", no_md(), "none", empty);
         if layer_path != ctx.layers_dir.join(&self.o.n) {
@@ -812,6 +844,7 @@ impl<M: MdType> Layer for ScriptLayer<'_, M> {
     }
 
     fn existing_layer_strategy(&mut self, _ctx: &BuildContext<TB>, d: &LayerData<M>) -> Result<ExistingLayerStrategy, TErr> {
+        let _p = Pause::new();
         self.log.borrow_mut().push(call("strategy", d.content_metadata.metadata.project(self.u), &self.u.env_token_of_layer_env(&d.env), false));
         match self.o.strat.k.as_str() {
             "Keep" => Ok(ExistingLayerStrategy::Keep),
@@ -826,11 +859,13 @@ impl<M: MdType> Layer for ScriptLayer<'_, M> {
     }
 
     fn update(&mut self, _ctx: &BuildContext<TB>, d: &LayerData<M>) -> Result<LayerResult<M>, TErr> {
+        let _p = Pause::new();
         self.log.borrow_mut().push(call("update", d.content_metadata.metadata.project(self.u), &self.u.env_token_of_layer_env(&d.env), false));
         self.result(&d.path, &self.o.ures, "update")
     }
 
     fn migrate_incompatible_metadata(&mut self, _ctx: &BuildContext<TB>, md: &GenericMetadata) -> Result<MetadataMigration<M>, TErr> {
+        let _p = Pause::new();
         self.log.borrow_mut().push(call("migrate", md.project(self.u), "none", false));
         match self.o.mig.k.as_str() {
             "Recreate" => Ok(MetadataMigration::RecreateLayer),
